@@ -244,8 +244,13 @@ def _r5(db, rep):
             continue
         reach = f.reach(p)
         bads = []
+        # the guard lives until the end of the block that declares it
+        scope = [a for a in f.ancestors(n) if a['k'] == 'CompoundStmt'][:1]
+        in_scope = {x['id'] for x in f.walk(scope[0])} if scope else None
         for c in f.calls():
             cp = f.position_of(c)
+            if in_scope is not None and c['id'] not in in_scope:
+                continue
             if cp is None or cp not in reach or c is n or (c.get('cs') or '').endswith('ossSourceFacet::InputData'):
                 continue          # InputData stores the operation's own result: the one write the guard exists for
             for t in db.callees(f, c):
